@@ -1526,6 +1526,17 @@ typedef struct spifmem_memrec_t {
  */
 #define FILE_PREPROC               (0x02)
 /**
+ * Owned-path flag.
+ *
+ * This symbol represents the bit in the FSS flags which specifies
+ * that the path string was allocated by the parser (for a %include
+ * directive) and is freed when the file is popped off the stack.
+ *
+ * @see @link DOXGRP_CONF_FSS File State Stack @endlink
+ * @ingroup DOXGRP_CONF_FSS
+ */
+#define FILE_PATH_OWNED            (0x04)
+/**
  * Push info for a new file onto the state stack.
  *
  * This macro adds a new file state structure to the top of the stack
